@@ -28,7 +28,11 @@ RULE = ('the VLE cases of C03 (every specification pair; stubbed solvers with ad
         'rational gamma / phi models and (n != 2) a table Rachford-Rice solver, against the Gallina iteration maps instantiated with the same stand-ins. '
         'non-trivial = the call changed the stream or the kernel returned a value; distinct = distinct case hash')
 ASSUMPTIONS = C03.ASSUMPTIONS[:3] + [
-    'vapour fraction met within solver resolution: flexsolve.IQ_interpolation contract, not proved (measured by oracle())',
+    'vapour fraction met within solver resolution: flexsolve.IQ_interpolation contract, not proved (measured by oracle()); the flows written belong to '
+    'the returned T (P) when the solver returns its last evaluation point (C04_PV_flows_at_returned_point); the lucky-guess return of a bound '
+    '(|V_bubble - V| < 1e-6) is outside the quantifier V in (0.02, 0.98) (Example C04_PV_lucky_guess_excluded)',
+    'enthalpy / entropy clause: at least one volatile chemical present (the quantifier); without one VLE.__call__ stores P only (C04_PH_no_volatile)',
+    'scaling clause: the solver oracles depend on the normalised composition only (orc_scaled)',
     'iso-fugacity at the solver tolerance rather than at an exact fixed point: flexsolve.aitken contract, not proved here']
 TRUSTED = ['wrapper model coq/C03/Model.v hand-written from vle.py (as repaired by pending_fixes/C04_1..3)',
            'kernels: tr/C04_kernels.py (python ast -> Gallina, fail-closed subset) regenerates coq/C04/Gen_kernels.v from binary_phase_fraction.py / vle.py on every run; '
